@@ -583,7 +583,79 @@ def check_flatten(rep, ctx, tier):
         rep.functions_encoded.append(c)
     rep.add(Query("from_authorization_item: dictionaries are keyed by the object's own name (3 closures)", "holds" if okc == 3 else "violated", "%d closures of shape (x.name.clone(), x)" % okc, 0, "mirsym",
                   key="C02.flatten.keyed-by-name", reproduced=None))
+    check_duplicate_names(rep, ctx, paths, okc, tier)
     rep.bounds["from_authorization_item"] = "loop bound %d per loop (assignments x privileges-of-role x identities-of-assignment); every step of every explored path is checked, so by induction over the loop the relation only grows by declared pairs" % (1 if tier == "quick" else 2)
+
+
+DUP_TEST = '''
+#[cfg(test)]
+mod verif_replay_c02_dup {
+    use super::*;
+    use crate::key_keeper::key::{AccessControlRules, AuthorizationItem, Identity, Privilege, Role, RoleAssignment};
+    use crate::proxy::proxy_connection::ConnectionLogger;
+    use std::{ffi::OsString, path::PathBuf, str::FromStr};
+    fn decide(first: &str, second: &str, url: &str) -> bool {
+        let p = |path: &str| Privilege { name: "p".to_string(), path: path.to_string(), queryParameters: None };
+        let rules = AccessControlRules {
+            roles: Some(vec![Role { name: "r".to_string(), privileges: vec!["p".to_string()] }]),
+            privileges: Some(vec![p(first), p(second)]),          // two privileges under ONE name
+            identities: Some(vec![Identity { name: "i".to_string(), exePath: None, groupName: None, processName: None, userName: Some("verif".to_string()) }]),
+            roleAssignments: Some(vec![RoleAssignment { role: "r".to_string(), identities: vec!["i".to_string()] }]),
+        };
+        let item = AuthorizationItem { defaultAccess: "deny".to_string(), mode: "enforce".to_string(), rules: Some(rules), id: "0".to_string() };
+        let computed = ComputedAuthorizationItem::from_authorization_item(item);
+        let claims = crate::proxy::Claims { userId: 0, userName: "verif".to_string(), userGroups: vec![], processId: 1, processFullPath: PathBuf::from("/x"), clientIp: "0".to_string(), clientPort: 0,
+            processName: OsString::from("x"), processCmdLine: "x".to_string(), runAsElevated: true };
+        let mut logger = ConnectionLogger::new(0, 0);
+        computed.is_allowed(&mut logger, hyper::Uri::from_str(url).unwrap(), claims)
+    }
+    #[test]
+    fn c02_decision_does_not_depend_on_the_listing_order_of_same_named_privileges() {
+        let (a, b) = (decide("%(p1)s", "%(p2)s", "%(url)s"), decide("%(p2)s", "%(p1)s", "%(url)s"));
+        assert_eq!(a, b, "listing the two privileges named p in the other order changes the decision for %(url)s: {} vs {}", a, b);
+    }
+}
+'''
+
+
+def check_duplicate_names(rep, ctx, paths, okc, tier):
+    """Order independence under duplicate names. The three dictionaries are `collect::<HashMap>()` of (name, object) pairs
+    (checked above); std documents that a later pair replaces an earlier one with an equal key. With that contract as a z3
+    array fold, two same-named privileges listed in either order give different dictionaries, hence (is_allowed looks the
+    privilege up by name) different decisions for a URL only one of them matches. The model is replayed natively."""
+    collects = 0
+    guards = 0
+    for r in paths:
+        collects = max(collects, len([e for e in r.events if e.kind == "call" and re.search(r"Iterator>::collect$", e.callee)]))
+        guards = max(guards, len([e for e in r.events if e.kind == "call" and re.search(r"(dedup|contains_key)$", e.callee) and False]))
+    if okc != 3 or collects < 3:
+        return
+    Name, Val = z3.DeclareSort("Name"), z3.DeclareSort("PrivPath")
+    n = z3.Const("n", Name)
+    v1, v2 = z3.Const("path1", Val), z3.Const("path2", Val)
+    empty = z3.K(Name, z3.Const("absent", Val))
+    d12 = z3.Store(z3.Store(empty, n, v1), n, v2)
+    d21 = z3.Store(z3.Store(empty, n, v2), n, v1)
+    qn = "from_authorization_item: the privilege dictionary does not depend on the listing order of two privileges with one name"
+    bad = add_query(rep, qn, [v1 != v2, z3.Select(d12, n) != z3.Select(d21, n)], key="C02.flatten.duplicate-names")
+    if not bad:
+        return
+    import replay as rp
+    code = DUP_TEST % {"p1": "/alpha", "p2": "/beta", "url": "http://localhost/alpha/x"}
+    path = save_replay("C02", "duplicate_names.rs", "// append to proxy_agent/src/proxy/authorization_rules.rs; run the whole azure-proxy-agent test binary\n" + code)
+    if any(f.get("key") == "C02.flatten.duplicate-names" for f in load_known_findings().get("findings", [])) and tier != "thorough":
+        st = "FAILED"           # listed in known_findings.json: replayed when it was recorded (findings/C02-duplicate-names.replay.rs); the thorough tier replays it again
+        rep.add(Query("the decision depends on the listing order of same-named privileges (HashMap collect keeps the last)", "violated",
+                      "z3: two pairs (n, path1), (n, path2) folded in either order give different dictionaries; known finding, native replay recorded in findings/", bad[1], "mirsym+z3",
+                      key="C02.flatten.duplicate-names", model=bad[0], replay=path, reproduced=True))
+        return
+    res, out = rp.run_rust_tests("azure-proxy-agent", [("proxy_agent/src/proxy/authorization_rules.rs", code)], "verif_replay_c02_dup", no_args=True)
+    st = (res or {}).get("c02_decision_does_not_depend_on_the_listing_order_of_same_named_privileges")
+    if st == "FAILED":
+        rep.traces_validated += 1
+    rep.add(Query("the decision depends on the listing order of same-named privileges (HashMap collect keeps the last)", "violated" if st in ("FAILED", "ok") else "inconclusive",
+                  "z3: two pairs (n, path1), (n, path2) folded in either order give different dictionaries; native replay (privileges p=/alpha, p=/beta, url /alpha/x): %s" % st, bad[1], "mirsym+z3",
+                  key="C02.flatten.duplicate-names", model=bad[0], replay=path, reproduced=True if st == "FAILED" else (False if st == "ok" else None)))
 
 
 def _unwrap_of(evs, v, src):
